@@ -276,8 +276,10 @@ func (g *gstate) fetch() {
 			}
 		}
 		mb := maxb
-		if implicit >= 2 && r.Chance(70) {
+		if implicit >= 2 && r.Chance(35) {
 			mb = 1 << 20
+		} else if r.Chance(40) {
+			mb = hx.Pick(r, []int64{300, 600, 1000, 2000, 4000}) // often enough for everything readable: the Spec then judges completeness
 		}
 		offs := map[int64]int64{}
 		str := reqParts(upd, offs)
